@@ -89,7 +89,7 @@ PROPS = {
                   ("FS", 2, has("or_lst", "and_lst")), ("ST", 2, None), ("GL", 1, has("GL6")), ("VO", 14, vo_sel("::bdd::", "var_order")),
                   ("GL", 9, has(":GL1:", ":GL2:", "ite_helper:GL4", ":GL5:", ":GL8:", "ite_helper:GL11")),
                   ("PM", 2, has("::set:", "assignment_iter")),
-                  ("SH", 5, has("RobddBuilder", "BottomUpBuilder<repr::bdd::BddPtr> for T>::var")),
+                  ("SH", 6, has("RobddBuilder", "BottomUpBuilder<repr::bdd::BddPtr> for T>::var")),
                   ("MK", 1, has("::bdd::"))],
         "explanation": "Six structural clauses of BDD operation correctness. (e) the standard-triple normalisation Ite::new "
                        "preserves ite(f,g,h) on every path for every truth assignment (ST: exhaustive abstract interpretation over "
